@@ -368,3 +368,43 @@ EXTRA = {
 }
 for _p, _t in EXTRA.items():
   CLAIMS[_p]['text'] = CLAIMS[_p]['text'].rstrip() + ' ' + _t
+
+# Members added after the third round of seeded changes.
+EXTRA3 = {
+    'C01': 'A further obligation configures and builds 1 / 2 / 4 (concrete smoke run: 300) short-lived unhashable callable '
+           'instances with different call signatures one after the other.',
+    'C02': 'The identity of a leaf-only tuple shared by both slots of the root is checked directly, and a chain of 1 / 2 / 5 '
+           '(smoke run: 600) nested Configs next to an early sibling must not invoke any Config twice whether or not the '
+           'build gives up with RecursionError.',
+    'C03': 'The quick tier also runs the narrow slice-assignment cubes (all small start / stop / step / length combinations, '
+           'empty slices inside the fixed prefix included) on two signatures with *args.',
+    'C04': 'Two more nesting kinds: the very container object of slot a in a second slot, and an ArgFactory whose '
+           'factories sit only inside its container arguments (18 kinds).',
+    'C06': 'In the sharing obligation the three equal objects are Configs, sets (leaves for daglish) or lists.',
+    'C08': 'A registry with a fallback must see a type registered (in itself or in the fallback) after its first lookup; '
+           'the legacy memoized traversal is also run with a pure visitor (result None for every object).',
+    'C09': 'Leaves include IntEnum / str-mixin enum members and an instance of a float subclass; one placement shares a '
+           'list only below a dict-based object; the policy obligation also uses a policy object whose truth value is '
+           'False.',
+    'C10': 'Three more edit kinds (19): a callable swap to a **kwargs callable that keeps a surplus keyword (built without '
+           'update_callable), a tuple with one more and with one less element; the first edit of a pair may not fail.',
+    'C11': 'Programs with a tagged factory held in a local and reused, and with local names spelled like builtins bound to '
+           'configurable callables.',
+    'C12': 'Leaves include strings with carriage returns and a function from a user module named auto_config; the '
+           'sub-fixture option also covers nested sub-fixtures (the middle node and a Buildable inside it; known finding: '
+           'shape 5).',
+    'C14': 'One tag set holds an unrelated tag with the same short name as T1.',
+    'C15': 'set() is also called with two attributes, the first of which detaches nested matching nodes.',
+    'C16': 'Suspension modes include a suspend block nested in another one and a suspend block entered with tracking '
+           'switched off imperatively (the operation after the inner block is still unlogged).',
+    'C17': 'The family holds nodes whose only arguments are explicitly set to the parameter default.',
+    'C18': 'Call-expression arguments include non-ASCII strings; a FiddleFlag holding a base config plus later directives '
+           'is serialized with Flag.serialize() and parsed back by a second flag.',
+    'C19': 'A further thread program reaches, in a memoized traversal, a leaf object that both threads\' configurations '
+           'contain (MemoizedTraversal.apply compiled with per-instance vs class-level dicts read from the class body); '
+           'class-level mutable containers are part of the shared-state inventory.',
+    'C20': 'inline is also applied to a call whose arguments alias the enclosing configuration; the family holds a '
+           'callable with a required positional-only parameter in front of defaulted positional-only ones.',
+}
+for _p, _t in EXTRA3.items():
+  CLAIMS[_p]['text'] = CLAIMS[_p]['text'].rstrip() + ' ' + _t
